@@ -34,7 +34,7 @@ def card(ex, s):
         _card_fns[key] = z3.Function(f'card_{key}', SetS(s.elem).z3(), z3.IntSort())
     c = _card_fns[key](s.arr)
     ex.assume(c >= 0)
-    ex.assume((c == 0) == (s.arr == z3.K(s.elem.z3(), z3.BoolVal(False))))
+    ex.assume((c == 0) == s.is_empty().t)
     return VInt(c)
 
 
@@ -181,6 +181,8 @@ def function(ex, frame, e, name, hint, want_seq):
         if not A:
             es = hint.elem if isinstance(hint, SetS) else INT
             r = SetS(es).empty()
+            if not isinstance(hint, SetS):
+                r.empty_literal = True      # element sort unknown: adapts to the set it is combined with
         else:
             v = ev(A[0], want_seq=True)
             if isinstance(v, VSet):
@@ -244,6 +246,8 @@ def _set_of_seq_dups(ex, seq):
 def isinstance_model(ex, v, cls):
     classes = cls if isinstance(cls, tuple) else (cls,)
     pyt = None
+    if hasattr(v, 'isinstance_model'):
+        return v.isinstance_model(ex, classes)
     if isinstance(v, VBool):
         pyt = bool
     elif isinstance(v, VInt):
@@ -411,7 +415,7 @@ def method(ex, frame, e, base, meth, hint):
             k = ev(A[0])
             if ex.decide(base.has(k)):
                 return item(k)
-            return ev(A[1]) if len(A) > 1 else VNone()
+            return ev(A[1], hint=base.vs) if len(A) > 1 else VNone()
         if meth == 'pop':
             k = ev(A[0])
             if ex.decide(base.has(k)):
@@ -419,7 +423,7 @@ def method(ex, frame, e, base, meth, hint):
                 ex.mutate(base, base.delete(k))
                 return v
             if len(A) > 1:
-                return ev(A[1])
+                return ev(A[1], hint=base.vs)
             raise E.PyRaise(KeyError)
         if meth == 'setdefault':
             k = ev(A[0])
